@@ -5,12 +5,12 @@ from lib.common import Broken, Violation, verdict, save_replay
 
 PROPS = {
     "C22": {
-        "text": "Keys.tla enumerates, by TLC actions, every ordered pair of topic names built from 1..3 '/'-separated segments over {a, b, 0, ., .., empty, a:0, a.0}; it transcribes topic-name acceptance and the key functions (segmentKey/indexKey/segmentPrefix/cacheTopicKey with path.Join's cleaning, offsetKey, consumerOffsetKey, partitionLeaseKey, in-memory partitionKey/consumerKey, the DeleteTopic prefixes of both stores) on real strings, and TLC checks C22 (KeysProps.tla, from the statement: names with separators or dot segments are rejected; two distinct accepted names share no key, no key of one lies under a partition prefix of the other, deleting one removes no key of the other) for every pair. Every enumerated name is pushed through the real InMemoryStore.CreateTopic, EtcdStore.CreateTopic (embedded etcd), the broker's Metadata auto-create, produce-path auto-create and CreateTopics API, the real key functions, and the real DeleteTopic of both stores with all other topics' offsets stored; TLC evaluates the same predicates on the recorded acceptance decisions and key strings for every ordered pair (layer O) and compares every string with the model (layer C).",
+        "text": "Keys.tla enumerates, by TLC actions, every ordered pair of topic names built from 1..3 '/'-separated segments over {a, b, 0, ., .., empty, a:0, a.0}; it transcribes topic-name acceptance and the key functions (segmentKey/indexKey/segmentPrefix/cacheTopicKey with path.Join's cleaning, offsetKey, consumerOffsetKey, partitionLeaseKey, in-memory partitionKey/consumerKey, the DeleteTopic prefixes of both stores) on real strings, and TLC checks C22 (KeysProps.tla, from the statement: names with separators or dot segments are rejected; two distinct accepted names share no key, no key of one lies under a partition prefix of the other, deleting one removes no key of the other) for every pair. Every enumerated name is pushed through the real InMemoryStore.CreateTopic, EtcdStore.CreateTopic (embedded etcd) and CreateTopics API (each with partition counts -1 = broker default, 0, 1, 2), the broker's Metadata auto-create and produce-path auto-create, the real key functions, and the real DeleteTopic of both stores with all other topics' offsets stored; TLC evaluates the same predicates on the recorded acceptance decisions and key strings for every ordered pair (layer O) and compares every string with the model (layer C).",
         "note": "Trusted: TLC, embedded etcd, the harness (names rendered by joining segments with '/', partitions 0 and 1, base offset 0, one consumer group 'g', S3 namespace 'ns'). The cache key is observed as cacheTopicKey:partition. Topic-level S3 prefixes used by point-in-time recovery and topics that enter through the operator's snapshot (not through a creation path) are not covered. Names are bounded to 3 segments over 8 symbols.",
         "technique": "TLA+ model (Keys.tla) + TLC exhaustive check over all name pairs of the bounded domain + every enumerated name run through the real creation paths, key functions and DeleteTopic + TLC evaluation of the property predicates on the real strings (observation layer) and comparison with the model (conformance layer)",
     }
 }
-DEVIATIONS = {"AnyName": "C22_Rejects", "AnyNameCollide": "C22_DisjointKeys", "SlashOnly": "C22_Rejects", "DotOnly": "C22_NoCapture", "AllowColon": "C22_NoCapture"}
+DEVIATIONS = {"AnyName": "C22_Rejects", "AnyNameCollide": "C22_DisjointKeys", "SlashOnly": "C22_Rejects", "DotOnly": "C22_NoCapture", "AllowColon": "C22_NoCapture", "DefaultParts": "C22_Rejects"}
 W = 6
 
 
@@ -21,10 +21,10 @@ def par(fns):
         return [f.result() for f in futs]
 
 
-def harness(ctx, names, tag):
+def harness(ctx, names, tag, counts):
     """names: list of segment lists.  Three packages are driven; their lines are merged per name (index order)."""
     sp = os.path.join(ctx.scratch, "in-%s.ndjson" % tag)
-    gorun.write_ndjson(sp, [{"segs": n} for n in names])
+    gorun.write_ndjson(sp, [{"counts": counts}] + [{"segs": n} for n in names])
     jobs = [
         ("s3", "./pkg/storage/", "pkg/storage/zz_verif_keys_s3_test.go", "keys_s3_verif_test.go", "^TestVerifKeysS3$"),
         ("meta", "./pkg/metadata/", "pkg/metadata/zz_verif_keys_meta_test.go", "keys_meta_verif_test.go", "^TestVerifKeysMeta$"),
@@ -45,8 +45,11 @@ def harness(ctx, names, tag):
         s3, me, br = got["s3"][i], got["meta"][i], got["broker"][i]
         if not (s3["i"] == me["i"] == br["i"] == i and s3["name"] == me["name"] == br["name"]):
             raise Broken("keys harness lines out of step at %d" % i)
-        acc_by = {"mem": me["accMem"], "etcd": me["accEtcd"], "auto": br["accAuto"], "prod": br["accProd"], "api": br["accApi"]}
-        rows.append({"ev": "Name", "i": i, "segs": segs, "name": me["name"], "accBy": acc_by, "acc": any(acc_by.values()),
+        acc_by = {"auto": br["accAuto"], "prod": br["accProd"]}                       # auto-creation: the broker picks the count
+        acc_cnt = {"mem": me["cntMem"], "etcd": me["cntEtcd"], "api": br["cntApi"]}   # explicit creation, one flag per count
+        in_store = {"mem": me["accMem"], "etcd": me["accEtcd"]}
+        acc = any(acc_by.values()) or any(any(v) for v in acc_cnt.values())
+        rows.append({"ev": "Name", "i": i, "segs": segs, "name": me["name"], "accBy": acc_by, "accCnt": acc_cnt, "inStore": in_store, "acc": acc,
                      "s3": s3["s3"], "s3pre": s3["s3pre"], "cache": s3["cache"], "etcd": me["etcd"], "lease": me["lease"],
                      "mem": me["mem"], "memc": me["memc"], "delEtcd": me["delEtcd"], "delMem": me["delMem"], "delMemC": me["delMemC"]})
     return rows
@@ -71,8 +74,9 @@ def check(ctx, prop):
     d = T.stage(ctx, DIR, "mc")
     mc = T.model_check(ctx, d, "MC_Keys.tla", "MC_Keys_%s.cfg" % ctx.tier, workers=W, coverage=not quick, timeout=3000)
     names = mc.prints.get("INPUT", [])
-    if not names:
-        raise Broken("the model printed no names")
+    counts = (mc.prints.get("COUNTS") or [None])[0]
+    if not names or not counts:
+        raise Broken("the model printed no names / partition counts")
     if not quick:
         cov_actions = {k: v[1] for k, v in mc.action_coverage().items() if k in ("Seg", "EndName")}
         if any(v == 0 for v in cov_actions.values()) or len(cov_actions) < 2:
@@ -93,8 +97,8 @@ def check(ctx, prop):
         for n in pair:
             if n not in names:
                 raise Broken("deviation %s counterexample uses a name outside the enumerated domain: %s" % (dev, n))
-    rows = harness(ctx, names, "main")
-    ctx.log("harness: %d names through 5 creation paths, key functions and DeleteTopic of both stores; %d accepted by some path" % (len(rows), sum(1 for r in rows if r["acc"])))
+    rows = harness(ctx, names, "main", counts)
+    ctx.log("harness: %d names through the creation paths (2 auto-create + 3 explicit x partition counts), key functions and DeleteTopic of both stores; %d accepted by some path" % (len(rows), sum(1 for r in rows if r["acc"])))
     # binding self-test lines ride at the end: two accepted names sharing an S3 key (O), a changed key string (C)
     base = next((r for r in rows if r["acc"] and name_class(r["segs"]) == "plain"), None)
     if base is None:
@@ -114,7 +118,8 @@ def check(ctx, prop):
     for line, inv, other, direction in viol:
         row = rows[line - 1]
         if inv == "C22_Rejects":
-            paths = "+".join(sorted(k for k, v in row["accBy"].items() if v))
+            paths = "+".join(sorted([k for k, v in row["accBy"].items() if v] +
+                                    ["%s(%s)" % (k, ",".join(str(c) for c, ok in zip(counts, v) if ok)) for k, v in row["accCnt"].items() if any(v)]))
             sig = "%s@%s:%s" % (inv, name_class(row["segs"]), paths)
             what = "name %s (%s) is accepted by %s" % (json.dumps(row["name"]), name_class(row["segs"]), paths)
             detail = {"names": [row["segs"]], "line": row}
@@ -157,7 +162,7 @@ def check(ctx, prop):
         "evaluations": len(rows), "ordered_pairs_of_accepted_names_evaluated": len(acc) * (len(acc) - 1),
         "distinct_nontrivial": sum(1 for r in rows if name_class(r["segs"]) != "plain"), "name_classes": classes,
         "accepted_names": [r["name"] for r in acc][:40],
-        "rule": "inputs = every name enumerated by TLC in MC_Keys_<tier> (all of them are run); each goes through 5 creation paths, 9 key functions x 2 partitions and DeleteTopic of both stores; layer O evaluates C22_Rejects per name and the pair predicates for every ordered pair of names accepted by some path; non-trivial = name has a separator, a dot segment, a colon or is empty",
+        "rule": "inputs = every name enumerated by TLC in MC_Keys_<tier> (all of them are run); each goes through the creation paths (Metadata / produce auto-create; InMemoryStore.CreateTopic, EtcdStore.CreateTopic and the CreateTopics API each with partition counts -1, 0, 1, 2), 9 key functions x 2 partitions and DeleteTopic of both stores; layer O evaluates C22_Rejects per name and the pair predicates for every ordered pair of names accepted by some path; non-trivial = name has a separator, a dot segment, a colon or is empty",
         "deviation_schedules": devs, "deviation_pairs": dev_pairs, "conformance": ("drift" if drift else "accepted"), "conformance_detail": conf,
         "binding_self_test": {"observation_layer_flags_corrupted_field": True, "conformance_layer_rejects_corrupted_state": True},
         "samples": [names[0], names[len(names) // 2], {k: rows[len(rows) // 2][k] for k in ("name", "accBy", "s3", "etcd", "mem")}],
@@ -165,7 +170,7 @@ def check(ctx, prop):
     if not quick:
         cov["action_coverage"] = cov_actions
     return verdict(ctx, violations, level, cov, [
-        "a name is 'accepted' when any of the five creation paths creates it (InMemoryStore.CreateTopic, EtcdStore.CreateTopic, Metadata auto-create, produce-path auto-create, CreateTopics API)",
+        "a name is 'accepted' when any creation path creates it: Metadata auto-create, produce-path auto-create, or InMemoryStore.CreateTopic / EtcdStore.CreateTopic / CreateTopics API with any partition count of {-1 (broker default), 0, 1, 2}",
         "keys are observed for partitions 0 and 1, base offset 0, consumer group 'g', S3 namespace 'ns'",
         "DeleteTopic is exercised with the offsets and consumer offsets of every accepted name stored; removed keys are found by diffing the store contents"])
 
@@ -197,7 +202,7 @@ def replay(ctx, prop, path):
     names = det["names"]
     if ["a"] not in names:
         names = names + [["a"]]
-    rows = harness(ctx, names, "replay")
+    rows = harness(ctx, names, "replay", det.get("counts") or [-1, 0, 1, 2])
     _, _, ro = layers.observe(ctx, DIR, "Obs_Keys.tla", "Obs_Keys.cfg", rows)
     viol = ro.prints["OBS"][-1]["viol"]
     for r in rows:
